@@ -31,6 +31,7 @@ type rowDef struct {
 }
 
 type kase struct {
+	slot int // worker announcing this case to the progress watchdog (not part of the case)
 	Kind string   `json:"kind"` // aseq aqseq multi mqulti
 	Rows []rowDef `json:"rows"`
 	Ops  []string `json:"ops"`
@@ -537,6 +538,7 @@ func apply(c container, m *model, op string, frz *[]frozen, errp *string) (conta
 }
 
 func play(c *enum.Ctx, k kase) (key string, steps int, ok bool) {
+	c.Doing(k.slot, k)
 	fail := func(class, f string, a ...interface{}) {
 		c.Fail(k.Kind+"/"+class, k, "%s  [%s]", fmt.Sprintf(f, a...), enum.J(k))
 	}
@@ -686,7 +688,9 @@ func run(c *enum.Ctx) {
 	var states, trans, traces atomic.Int64
 	enum.Parallel(len(jobs), func(i int) {
 		nt := enum.NontrivialSet{}
-		search(c, jobs[i].k, jobs[i].d, &states, &trans, &traces, nt)
+		b := jobs[i].k
+		b.slot = i
+		search(c, b, jobs[i].d, &states, &trans, &traces, nt)
 		c.Merge(nt)
 		if i%31 == 0 {
 			k := jobs[i].k
